@@ -1,9 +1,9 @@
 Agg/AntiUnify.vo Agg/AntiUnify.glob Agg/AntiUnify.v.beautified Agg/AntiUnify.required_vo: Agg/AntiUnify.v Ir/Syntax.vo Ir/Fold.vo Agg/Instance.vo
 Agg/AntiUnify.vio: Agg/AntiUnify.v Ir/Syntax.vio Ir/Fold.vio Agg/Instance.vio
 Agg/AntiUnify.vos Agg/AntiUnify.vok Agg/AntiUnify.required_vos: Agg/AntiUnify.v Ir/Syntax.vos Ir/Fold.vos Agg/Instance.vos
-Agg/Check.vo Agg/Check.glob Agg/Check.v.beautified Agg/Check.required_vo: Agg/Check.v Ir/Syntax.vo Ir/Fold.vo Agg/Instance.vo Agg/AntiUnify.vo Agg/MayInv.vo Agg/Solution.vo
-Agg/Check.vio: Agg/Check.v Ir/Syntax.vio Ir/Fold.vio Agg/Instance.vio Agg/AntiUnify.vio Agg/MayInv.vio Agg/Solution.vio
-Agg/Check.vos Agg/Check.vok Agg/Check.required_vos: Agg/Check.v Ir/Syntax.vos Ir/Fold.vos Agg/Instance.vos Agg/AntiUnify.vos Agg/MayInv.vos Agg/Solution.vos
+Agg/Check.vo Agg/Check.glob Agg/Check.v.beautified Agg/Check.required_vo: Agg/Check.v Ir/Syntax.vo Ir/Fold.vo Agg/Instance.vo Agg/AntiUnify.vo Agg/MayInv.vo Agg/Solution.vo Agg/Loop.vo
+Agg/Check.vio: Agg/Check.v Ir/Syntax.vio Ir/Fold.vio Agg/Instance.vio Agg/AntiUnify.vio Agg/MayInv.vio Agg/Solution.vio Agg/Loop.vio
+Agg/Check.vos Agg/Check.vok Agg/Check.required_vos: Agg/Check.v Ir/Syntax.vos Ir/Fold.vos Agg/Instance.vos Agg/AntiUnify.vos Agg/MayInv.vos Agg/Solution.vos Agg/Loop.vos
 Agg/Instance.vo Agg/Instance.glob Agg/Instance.v.beautified Agg/Instance.required_vo: Agg/Instance.v Ir/Syntax.vo Ir/Fold.vo
 Agg/Instance.vio: Agg/Instance.v Ir/Syntax.vio Ir/Fold.vio
 Agg/Instance.vos Agg/Instance.vok Agg/Instance.required_vos: Agg/Instance.v Ir/Syntax.vos Ir/Fold.vos
@@ -175,9 +175,9 @@ Props/C15.vos Props/C15.vok Props/C15.required_vos: Props/C15.v Ir/Syntax.vos In
 Props/C16.vo Props/C16.glob Props/C16.v.beautified Props/C16.required_vo: Props/C16.v Ir/Syntax.vo Ir/Fold.vo Infer/Canon.vo Infer/UCanon.vo Infer/Invert.vo
 Props/C16.vio: Props/C16.v Ir/Syntax.vio Ir/Fold.vio Infer/Canon.vio Infer/UCanon.vio Infer/Invert.vio
 Props/C16.vos Props/C16.vok Props/C16.required_vos: Props/C16.v Ir/Syntax.vos Ir/Fold.vos Infer/Canon.vos Infer/UCanon.vos Infer/Invert.vos
-Props/C17.vo Props/C17.glob Props/C17.v.beautified Props/C17.required_vo: Props/C17.v Ir/Syntax.vo Ir/Fold.vo Agg/Instance.vo Agg/AntiUnify.vo Agg/MayInv.vo Agg/Solution.vo
-Props/C17.vio: Props/C17.v Ir/Syntax.vio Ir/Fold.vio Agg/Instance.vio Agg/AntiUnify.vio Agg/MayInv.vio Agg/Solution.vio
-Props/C17.vos Props/C17.vok Props/C17.required_vos: Props/C17.v Ir/Syntax.vos Ir/Fold.vos Agg/Instance.vos Agg/AntiUnify.vos Agg/MayInv.vos Agg/Solution.vos
+Props/C17.vo Props/C17.glob Props/C17.v.beautified Props/C17.required_vo: Props/C17.v Ir/Syntax.vo Ir/Fold.vo Agg/Instance.vo Agg/AntiUnify.vo Agg/MayInv.vo Agg/Solution.vo Agg/Loop.vo
+Props/C17.vio: Props/C17.v Ir/Syntax.vio Ir/Fold.vio Agg/Instance.vio Agg/AntiUnify.vio Agg/MayInv.vio Agg/Solution.vio Agg/Loop.vio
+Props/C17.vos Props/C17.vok Props/C17.required_vos: Props/C17.v Ir/Syntax.vos Ir/Fold.vos Agg/Instance.vos Agg/AntiUnify.vos Agg/MayInv.vos Agg/Solution.vos Agg/Loop.vos
 Props/C18.vo Props/C18.glob Props/C18.v.beautified Props/C18.required_vo: Props/C18.v Ir/Syntax.vo Ir/CouldMatch.vo
 Props/C18.vio: Props/C18.v Ir/Syntax.vio Ir/CouldMatch.vio
 Props/C18.vos Props/C18.vok Props/C18.required_vos: Props/C18.v Ir/Syntax.vos Ir/CouldMatch.vos
